@@ -7,7 +7,9 @@ func controls() map[string]string {
 import (
 	"math"
 
+	"github.com/EliCDavis/polyform/math/quaternion"
 	"github.com/EliCDavis/polyform/modeling"
+	"github.com/EliCDavis/polyform/modeling/meshops"
 	"github.com/EliCDavis/vector/vector3"
 )
 
@@ -281,6 +283,105 @@ func (c Circle) verifControlCapGoodSideways() modeling.Mesh {
 	vertices[c.Sides] = vector3.Zero[float64]()
 	normals[c.Sides] = right
 	return modeling.NewTriangleMesh(nil).SetFloat3Data(map[string][]vector3.Float64{modeling.PositionAttribute: vertices, modeling.NormalAttribute: normals})
+}
+
+// must fire (QUAD-DIMS): the back face is Width x Depth (copy of the top face's extents)
+func (c Cube) verifControlQuadsBadBack() modeling.Mesh {
+	hw, hh, hd := c.Width/2, c.Height/2, c.Depth/2
+	top := Quad{Width: c.Width, Depth: c.Depth}.ToMesh().Translate(vector3.New(0., hh, 0.))
+	bottom := rotate(Quad{Width: c.Width, Depth: c.Depth}.ToMesh(), quaternion.FromTheta(math.Pi, vector3.Forward[float64]())).Translate(vector3.New(0., -hh, 0.))
+	left := rotate(Quad{Width: c.Height, Depth: c.Depth}.ToMesh(), quaternion.FromTheta(math.Pi/2, vector3.Forward[float64]())).Translate(vector3.New(-hw, 0., 0.))
+	right := rotate(Quad{Width: c.Height, Depth: c.Depth}.ToMesh(), quaternion.FromTheta(math.Pi*1.5, vector3.Forward[float64]())).Translate(vector3.New(hw, 0., 0.))
+	front := rotate(Quad{Width: c.Width, Depth: c.Height}.ToMesh(), quaternion.FromTheta(math.Pi*1.5, vector3.Left[float64]())).Translate(vector3.New(0., 0., hd))
+	back := rotate(Quad{Width: c.Width, Depth: c.Depth}.ToMesh(), quaternion.FromTheta(math.Pi/2, vector3.Left[float64]())).Translate(vector3.New(0., 0., -hd))
+	return top.Append(bottom).Append(left).Append(right).Append(front).Append(back)
+}
+
+// must stay silent (QUAD-DIMS): faces through a local helper, bottom flipped about x, another append order
+func (c Cube) verifControlQuadsGoodHelper() modeling.Mesh {
+	face := func(w, d float64, angle float64, axis vector3.Float64, off vector3.Float64) modeling.Mesh {
+		return rotate(Quad{Width: w, Depth: d}.ToMesh(), quaternion.FromTheta(angle, axis)).Translate(off)
+	}
+	x, z := vector3.Right[float64](), vector3.Forward[float64]()
+	top := Quad{Depth: c.Depth, Width: c.Width}.ToMesh().Translate(vector3.Up[float64]().Scale(c.Height * 0.5))
+	bottom := face(c.Width, c.Depth, math.Pi, x, vector3.New(0., -0.5*c.Height, 0.))
+	left := face(c.Height, c.Depth, math.Pi/2, z, vector3.New(-c.Width/2, 0., 0.))
+	right := face(c.Height, c.Depth, -math.Pi/2, z, vector3.New(c.Width/2, 0., 0.))
+	front := face(c.Width, c.Height, -math.Pi/2, x, vector3.New(0., 0., c.Depth/2))
+	back := face(c.Width, c.Height, math.Pi/2, x, vector3.New(0., 0., -c.Depth/2))
+	return back.Append(front).Append(right).Append(left).Append(bottom).Append(top)
+}
+
+// must fire (LATITUDE): the latitude is divided by the column count
+func verifControlLatitudeBadDivisor(radius float64, rows, columns int) modeling.Mesh {
+	positions := make([]vector3.Float64, 0)
+	for i := 0; i < rows-1; i++ {
+		phi := math.Pi * float64(i+1) / float64(columns)
+		for j := 0; j < columns; j++ {
+			theta := 2.0 * math.Pi * float64(j) / float64(columns)
+			positions = append(positions, vector3.New(math.Sin(phi)*math.Cos(theta), math.Cos(phi), math.Sin(phi)*math.Sin(theta)).Scale(radius))
+		}
+	}
+	return modeling.NewTriangleMesh(nil).SetFloat3Data(map[string][]vector3.Float64{modeling.PositionAttribute: positions})
+}
+
+// must fire (LATITUDE): one ring too many — the last ring collapses into the pole
+func verifControlLatitudeBadExtraRing(radius float64, rows, columns int) modeling.Mesh {
+	positions := make([]vector3.Float64, 0)
+	for i := 0; i < rows; i++ {
+		phi := math.Pi * float64(i+1) / float64(rows)
+		for j := 0; j < columns; j++ {
+			theta := 2.0 * math.Pi * float64(j) / float64(columns)
+			positions = append(positions, vector3.New(math.Sin(phi)*math.Cos(theta), math.Cos(phi), math.Sin(phi)*math.Sin(theta)).Scale(radius))
+		}
+	}
+	return modeling.NewTriangleMesh(nil).SetFloat3Data(map[string][]vector3.Float64{modeling.PositionAttribute: positions})
+}
+
+// must stay silent (LATITUDE): steps hoisted, rings counted from the south pole, longitude with a phase
+func verifControlLatitudeGoodFromSouth(radius float64, rows, columns int) modeling.Mesh {
+	var positions []vector3.Float64
+	dPhi := math.Pi / float64(rows)
+	dTheta := 2 * math.Pi / float64(columns)
+	for ring := 0; ring < rows-1; ring++ {
+		phi := math.Pi - dPhi*float64(ring+1)
+		s, c := math.Sin(phi), math.Cos(phi)
+		for col := 0; col < columns; col++ {
+			theta := dTheta*float64(col) + 0.25
+			positions = append(positions, vector3.New(radius*s*math.Cos(theta), radius*c, radius*s*math.Sin(theta)))
+		}
+	}
+	return modeling.NewTriangleMesh(nil).SetFloat3Data(map[string][]vector3.Float64{modeling.PositionAttribute: positions})
+}
+
+// must fire (CAP-FLIP-AXIS): the bottom cap is flipped about z, the ring starts on x
+func (c Cylinder) verifControlFlipBadZ() modeling.Mesh {
+	vertices := make([]vector3.Float64, (c.Sides*2)+2)
+	for k := 0; k <= c.Sides; k++ {
+		a := 2.0 * math.Pi * float64(k) / float64(c.Sides)
+		vertices[k*2] = vector3.New(math.Cos(a)*c.Radius, c.Height/2, math.Sin(a)*c.Radius)
+		vertices[k*2+1] = vector3.New(math.Cos(a)*c.Radius, -c.Height/2, math.Sin(a)*c.Radius)
+	}
+	side := modeling.NewTriangleMesh(nil).SetFloat3Data(map[string][]vector3.Float64{modeling.PositionAttribute: vertices})
+	flip := quaternion.FromTheta(math.Pi, vector3.Forward[float64]())
+	bottom := Circle{Sides: c.Sides, Radius: c.Radius}.ToMesh().Transform(
+		meshops.RotateAttribute3DTransformer{Attribute: modeling.PositionAttribute, Amount: flip},
+		meshops.RotateAttribute3DTransformer{Attribute: modeling.NormalAttribute, Amount: flip},
+	).Translate(vector3.New(0, -c.Height/2, 0))
+	return side.Append(bottom)
+}
+
+// must stay silent (CAP-FLIP-AXIS): flipped about x through the axis constant
+func (c Cylinder) verifControlFlipGoodRight() modeling.Mesh {
+	vertices := make([]vector3.Float64, (c.Sides*2)+2)
+	for k := 0; k <= c.Sides; k++ {
+		a := 2.0 * math.Pi * float64(k) / float64(c.Sides)
+		vertices[k*2] = vector3.New(math.Cos(a)*c.Radius, c.Height/2, math.Sin(a)*c.Radius)
+		vertices[k*2+1] = vector3.New(math.Cos(a)*c.Radius, -c.Height/2, math.Sin(a)*c.Radius)
+	}
+	side := modeling.NewTriangleMesh(nil).SetFloat3Data(map[string][]vector3.Float64{modeling.PositionAttribute: vertices})
+	bottom := rotate(Circle{Sides: c.Sides, Radius: c.Radius}.ToMesh(), quaternion.FromTheta(math.Pi, vector3.Right[float64]())).Translate(vector3.New(0, -c.Height/2, 0))
+	return side.Append(bottom)
 }
 `,
 	}
